@@ -938,30 +938,37 @@ func showInMarkdownCodeBlock(env *env, out io.Writer, value any, spaces bool) er
 
 // showTimeInJS shows a value of type time.Time in a JavaScript context.
 func showTimeInJS(tt time.Time) string {
+	_, offset := tt.Zone()
+	if offset%60 != 0 {
+		// The offset of a JavaScript date time string has no seconds: show
+		// the same instant in UTC.
+		tt = tt.UTC()
+		offset = 0
+	}
 	y := tt.Year()
 	if y < -999999 || y > 999999 {
 		// The year cannot be represented in a JavaScript date time string.
 		return "undefined/* scriggo: cannot represent a time.Time value with a year outside the range [-999999, 999999] */"
 	}
 	ms := int64(tt.Nanosecond()) / int64(time.Millisecond)
-	name, offset := tt.Zone()
-	if name == "UTC" {
+	if offset == 0 {
 		format := `new Date("%0.4d-%0.2d-%0.2dT%0.2d:%0.2d:%0.2d.%0.3dZ")`
 		if y < 0 || y > 9999 {
 			format = `new Date("%+0.6d-%0.2d-%0.2dT%0.2d:%0.2d:%0.2d.%0.3dZ")`
 		}
 		return fmt.Sprintf(format, y, tt.Month(), tt.Day(), tt.Hour(), tt.Minute(), tt.Second(), ms)
 	}
-	zone := offset / 60
-	h, m := zone/60, zone%60
-	if m < 0 {
-		m = -m
+	sign := '+'
+	if offset < 0 {
+		sign = '-'
+		offset = -offset
 	}
-	format := `new Date("%0.4d-%0.2d-%0.2dT%0.2d:%0.2d:%0.2d.%0.3d%+0.2d:%0.2d")`
+	h, m := offset/3600, offset%3600/60
+	format := `new Date("%0.4d-%0.2d-%0.2dT%0.2d:%0.2d:%0.2d.%0.3d%c%0.2d:%0.2d")`
 	if y < 0 || y > 9999 {
-		format = `new Date("%+0.6d-%0.2d-%0.2dT%0.2d:%0.2d:%0.2d.%0.3d%+0.2d:%0.2d")`
+		format = `new Date("%+0.6d-%0.2d-%0.2dT%0.2d:%0.2d:%0.2d.%0.3d%c%0.2d:%0.2d")`
 	}
-	return fmt.Sprintf(format, y, tt.Month(), tt.Day(), tt.Hour(), tt.Minute(), tt.Second(), ms, h, m)
+	return fmt.Sprintf(format, y, tt.Month(), tt.Day(), tt.Hour(), tt.Minute(), tt.Second(), ms, sign, h, m)
 }
 
 // parseTagValue parses a 'json' tag value and returns its name and whether
